@@ -101,8 +101,9 @@ func (r *RegistryImpl) CleanupStaleTransactions() {
 			continue
 		}
 
-		// Check idle time
-		idleTime := now.Sub(txImpl.lastActiveTime)
+		// Check idle time (read under the transaction's own lock: every operation of the
+		// transaction updates the timestamp while holding it)
+		idleTime := now.Sub(txImpl.lastActive())
 		if idleTime > r.idleTxTTL {
 			staleIDs = append(staleIDs, id)
 			continue
